@@ -224,13 +224,15 @@ def _c10_sweeps():
     k22 = [{"prog": prog_str(t), "prekeys": pk} for pk in ("", "3") for t in thread_programs(["I3", "E3", "F3", "X3", "A3"], 2, 2)]
     two = ["I3", "I259", "E3", "E259", "F3", "F259"]
     pc = [{"prog": prog_str(t), "prekeys": pk} for pk in ("", "3", "3,259") for t in thread_programs(two, 3, 1)]
-    pcg = [{"prog": prog_str(t), "prekeys": pk, "pre": 254} for pk in ("", "3") for t in thread_programs(two, 3, 1)]
+    grow = ["I1", "I259", "E259", "X259", "R259", "F259", "E3", "F3", "A3"]
+    pcg = [{"prog": prog_str(t), "prekeys": pk, "pre": 254 - (len(pk.split(",")) if pk else 0)} for pk in ("", "3", "259", "3,259")
+           for t in thread_programs(grow, 3, 1, keep=lambda c: any(th[0] == "I1" or (th[0] == "I259") for th in c))]
     ch = [{"prog": prog_str(t), "prekeys": pk, "hash": "const"} for pk in ("", "5", "5,9") for t in thread_programs(["I5", "I9", "E5", "E9", "F5", "F9"], 3, 1)]
     return [
         sweep("sweep-1key-3x1", "c10_chm", (1, 2), k31, what="one key, absent or present: every multiset of three single operations out of insert / erase / find / count / emplace / the three accessor kinds / erase by accessor", tiers=("quick", "thorough")),
         sweep("sweep-1key-2x2", "c10_chm", (1, 2), k22, what="one key: every pair of two-operation sequences over insert / erase / find / write accessor / erase by accessor"),
         sweep("sweep-split-3x1", "c10_chm", (1, 2), pc, what="keys 3 and 259 (parent and child bucket of a split): every multiset of three insert/erase/find operations, from three initial contents"),
-        sweep("sweep-split-grow", "c10_chm", (1, 2), pcg, {}, what="same with the table one insert below the 255-element growth threshold (segment enable + lazy rehash inside the window)", weight=2.0),
+        sweep("sweep-split-grow", "c10_chm", (1, 2), pcg, {}, what="the table is one insert below the 255-element growth threshold, keys 3 / 259 are parent / child of the coming split: every multiset of three operations (at least one growing insert) out of insert / erase / erase by accessor / find / accessors, from four initial contents (segment enable + lazy rehash inside the window)", weight=2.0),
         sweep("sweep-const-hash", "c10_chm", (1, 2), ch, what="all keys in one bucket chain (constant hash)"),
     ]
 PROPS["C10"] = {
@@ -246,6 +248,9 @@ PROPS["C10"] = {
         leg("readers-eraser", "c10_chm", (2, 2), {"prog": "R3|R3|E3", "prekeys": "3"}, what="two const_accessors vs erase"),
         leg("grow-255", "c10_chm", (2, 2), {"prog": "I1|I2|I3,F1", "pre": 254}, what="inserts cross the 255-element growth threshold", weight=2.0),
         leg("grow-rehash", "c10_chm", (2, 2), {"prog": "I259,E3|F3|E259,I3", "prekeys": "3", "pre": 254}, what="lazy rehash of a child bucket races insert/erase in its parent", weight=2.0),
+        leg("grow-erase-acc", "c10_chm", (2, 3), {"prog": "X259|I1|R259", "prekeys": "259", "pre": 253}, what="erase(accessor) of a key in a child bucket vs the insert that grows the table vs a const_accessor whose lookup rehashes the child bucket", weight=2.0),
+        leg("grow-erase-key", "c10_chm", (2, 3), {"prog": "E259|I1|F259", "prekeys": "259", "pre": 253}, what="erase(key) vs growth vs find of the moved key", weight=2.0),
+        leg("grow-find-acc", "c10_chm", (2, 3), {"prog": "A259|I1|E259", "prekeys": "259", "pre": 253}, what="write accessor vs growth vs erase of the moved key", weight=2.0),
         leg("const-hash", "c10_chm", (2, 2), {"prog": "I5|E9|F5,F9", "hash": "const", "prekeys": "9"}, what="everything in one bucket"),
         leg("low2-hash", "c10_chm", (2, 2), {"prog": "I4,I8|E12|C4,C8", "hash": "low2", "prekeys": "12"}, what="hash keeps only two low bits"),
         leg("emplace-count", "c10_chm", (2, 2), {"prog": "M7|M7|C7,E7"}, what="emplace twice, count, erase"),
@@ -571,6 +576,8 @@ PROPS["C05"] = {
         leg("pfor-1d-wide", "c05_pfor", (2, 2), {"nmax": 64, "gmax": 9, "pmax": 4}, flags=(), what="blocked_range(0,n,g): n<=64, g<=9, 4 partitioners, P<=4", tiers=("thorough",), weight=3.0),
         leg("pfor-1d-32", "c05_pfor", (3, 3), {"nmax": 32, "gmax": 5, "pmax": 3}, flags=(), what="n<=32, g<=5 at three deviations", tiers=("thorough",), weight=8.0),
         leg("pfor-1d-deep", "c05_pfor", (4, 4), {"nmax": 12, "gmax": 3, "pmax": 3}, flags=(), what="n<=12 at four deviations", tiers=("thorough",), weight=2.0),
+        leg("pfor-1d-nested", "c05_pfor", (2, 3), {"nmax": 24, "gmax": 4, "pmax": 3, "nested": 1}, flags=(), what="n<=24, g<=4: in addition every body may re-enter the dispatcher on its own worker (nested wait inside the body)", weight=2.0),
+        leg("other-spaces-nested", "c05_more", (1, 2), {"nested": 1}, flags=(), what="other iteration spaces with bodies that may re-enter the dispatcher"),
         leg("other-spaces", "c05_more", (2, 3), {}, flags=(), what="2d/3d/nd, huge ranges, strided loops, parallel_for_each, parallel_invoke, indivisible range", weight=3.0),
         leg("rt-pfor-simple", "c01_rt", (2, 3), {"kind": "pfor"}, flags=("-fp", "-hb"), what="real scheduler: parallel_for over 4 elements, simple_partitioner"),
         leg("rt-pfor-auto", "c01_rt", (2, 3), {"kind": "pfor_auto"}, flags=("-fp", "-hb"), what="real scheduler: parallel_for(0,5), auto_partitioner"),
@@ -584,6 +591,7 @@ PROPS["C06"] = {
                    "position for n=500..520 (pre-test + partition path) and other shapes, all permutations of <=6 keys, all 3-valued sequences of length <=6.",
     "rule": VTBB_RULE,
     "legs": [
+        leg("reduce-scan-nested", "c06_reduce", (3, 4), {"nested": 1}, flags=(), what="same; in addition every body may re-enter the dispatcher on its own worker (a nested wait inside the body takes the worker's own not yet stolen sibling task, mail, or steals)", weight=2.0),
         leg("reduce-scan", "c06_reduce", (3, 4), {}, flags=(), what="parallel_reduce (2 forms), parallel_deterministic_reduce, parallel_scan (2 forms)", weight=2.0),
         leg("sort", "c06_sort", (2, 3), {}, flags=(), what="parallel_sort: 29025 inputs around the 500-element cutoff and exhaustive small inputs", weight=3.0),
         leg("rt-reduce", "c03_rt", (2, 3), {"kind": "reduce_body", "mask": 0}, flags=("-fp",), what="real scheduler: parallel_reduce over 4 elements (no fault), completes with every body exactly once"),
@@ -595,6 +603,7 @@ def _c07():
     L = [
         leg("vtbb-modes3", "c07_pipe", (4, 6), {"lmax": 3, "tmax": 3, "imax": 4, "pmax": 3}, flags=(), what="all 39 filter-mode sequences of length 1..3 x tokens 1..3 x items 0..4 x P 2..3 x item type (int in a void* / allocated object)", weight=2.0),
         leg("vtbb-modes4", "c07_pipe", (3, 4), {"lmax": 4, "tmax": 4, "imax": 5, "pmax": 3}, flags=(), what="all 120 filter-mode sequences of length 1..4 x tokens 1..4 x items 0..5", weight=2.0),
+        leg("vtbb-modes3-nested", "c07_pipe", (3, 4), {"lmax": 3, "tmax": 3, "imax": 4, "pmax": 3, "nested": 1}, flags=(), what="filter-mode sequences of length 1..3 where every filter body may re-enter the dispatcher on its own worker (a nested wait inside a filter runs another stage task)", weight=2.0),
         leg("vtbb-grow-far", "c07_pipe", (1, 2), {"grow": 2}, flags=(), what="items 0..m-1 (m=15..20, P=m+2 virtual workers) wait inside a filter until item m has passed: the first token parked at the next serial filter is >= 16 ahead, so the 4-slot ring must grow by several doublings at once", weight=2.0),
         leg("vtbb-grow", "c07_pipe", (3, 4), {"grow": 1}, flags=(), what="item 0 stalled inside a filter while 5-8 other stage tasks run: >= 4 tokens parked behind it, input_buffer::grow relocates parked items (tokens 5..7, items 6/9)", weight=2.0),
     ]
